@@ -277,29 +277,44 @@ def _lambda_names(ctx, repo) -> None:
         raise AnalysisError("anchor vanished: module._get_lambda_assigned_name")
     ctx.analysed(fn)
     mod = repo.module(M)
-    src = "one = lambda x: x\nwrapped = (\n    lambda v: v + 1\n)\ncontinued = \\\n    lambda: 3\n_hidden = lambda y: y\nplain = 5\n"
+    src = ("one = lambda x: x\nwrapped = (\n    lambda v: v + 1\n)\ncontinued = \\\n    lambda: 3\n_hidden = lambda y: y\nplain = 5\n"
+           "annotated: object = lambda: 3\nfirst = second = lambda: 4\nif plain:\n    conditional = lambda: 5\ntry:\n    tried = lambda: 6\nexcept Exception:\n    handled = lambda: 7\n"
+           "def f():\n    local = lambda: 8\n    return local\n")
     tree = ast.parse(src)
-    code = compile(src, "<representative>", "exec")
-    firstlines = sorted(k.co_firstlineno for k in code.co_consts if hasattr(k, "co_code"))
     want = {}
-    for node in tree.body:
-        if isinstance(node, ast.Assign) and isinstance(node.value, ast.Lambda):
-            want[node.value.lineno] = node.targets[0].id
-    if sorted(want) != firstlines:
-        raise AnalysisError("C27.lambda: the representative's lambda lines and code objects disagree")
+
+    def module_level(stmts):
+        for node in stmts:
+            if isinstance(node, (ast.FunctionDef, ast.AsyncFunctionDef, ast.ClassDef)):
+                continue
+            if isinstance(node, (ast.Assign, ast.AnnAssign)) and isinstance(node.value, ast.Lambda):
+                tg = node.targets[0] if isinstance(node, ast.Assign) else node.target
+                want[node.value.lineno] = tg.id
+                continue
+            for field in ("body", "orelse", "finalbody"):
+                module_level(getattr(node, field, []) or [])
+            for h in getattr(node, "handlers", []) or []:
+                module_level(h.body)
+
+    module_level(tree.body)
+    if len(want) != 9:
+        raise AnalysisError(f"C27.lambda: the representative has {len(want)} module-level lambda assignments, expected 9")
+    local_line = next(n.value.lineno for n in ast.walk(tree) if isinstance(n, ast.Assign) and isinstance(n.value, ast.Lambda) and n.targets[0].id == "local")
     for line, name in sorted(want.items()):
         tag = f"[lambda name] `{name}` (code object starts on line {line})"
-        it = peval.Interp(resolver=peval.repo_resolver(repo), native_types=(ast.AST,), consts={"ast": ast, "Assign": ast.Assign, "Lambda": ast.Lambda}, max_steps=20000)
+        it = peval.Interp(resolver=peval.repo_resolver(repo), native_types=(ast.AST,), consts={"ast": ast, "Assign": ast.Assign, "Lambda": ast.Lambda, "FunctionDef": ast.FunctionDef, "AsyncFunctionDef": ast.AsyncFunctionDef, "ClassDef": ast.ClassDef}, max_steps=20000)
         try:
             got = it.run_function(fn, [tree, line], {}, mod)
         except (peval.Undecided, peval.Raises) as exc:
             ctx.undecide("C27.lambda", fn, f"{tag}: {exc}")
             continue
         ctx.check("C27.lambda", fn, got == name, f"{tag}: the lookup yields {got!r}: the eligible lambda gets no name and is silently left out of the test cluster (or is registered under another lambda's name)", what=f"{tag}: found", stmt=tag)
-    it = peval.Interp(resolver=peval.repo_resolver(repo), native_types=(ast.AST,), consts={"ast": ast, "Assign": ast.Assign, "Lambda": ast.Lambda}, max_steps=20000)
+    it = peval.Interp(resolver=peval.repo_resolver(repo), native_types=(ast.AST,), consts={"ast": ast, "Assign": ast.Assign, "Lambda": ast.Lambda, "FunctionDef": ast.FunctionDef, "AsyncFunctionDef": ast.AsyncFunctionDef, "ClassDef": ast.ClassDef}, max_steps=20000)
     try:
         got = it.run_function(fn, [tree, 8], {}, mod)
         ctx.check("C27.lambda", fn, got is None, f"[lambda name] a line without lambda yields {got!r}", what="[lambda name] no lambda on the line -> None", stmt="[lambda name] none")
+        got = it.run_function(fn, [tree, local_line], {}, mod)
+        ctx.check("C27.lambda", fn, got is None, f"[lambda name] a lambda bound to a local of a function yields the module-level name {got!r}", what="[lambda name] a function's local lambda is no module attribute", stmt="[lambda name] local")
     except (peval.Undecided, peval.Raises) as exc:
         ctx.undecide("C27.lambda", fn, f"no-lambda line: {exc}")
 
